@@ -645,6 +645,14 @@ func genStateCase(r *hx.RNG) (stateCase, []chain.BlockSpec) {
 				continue
 			}
 			if !r.Chance(55) {
+				// a per-contract storage entry WITHOUT any slot (feeder state diffs can carry one; sn2core keeps
+				// it): no effect on the abstract state, often next to a nonce / class change of the same contract
+				_, n := sp.Nonces[a]
+				_, c := sp.Replace[a]
+				if a > 2 && (n || c || r.Chance(10)) && r.Chance(50) {
+					sp.Storage[a] = map[uint64]uint64{}
+					items = append(items, fmt.Sprintf("ste:%x", a))
+				}
 				continue
 			}
 			m := map[uint64]uint64{}
@@ -738,6 +746,10 @@ func specFromItems(sc stateCase, b int) chain.BlockSpec {
 			sp.Replace[u(f[1])] = u(f[2])
 		case "non":
 			sp.Nonces[u(f[1])] = u(f[2])
+		case "ste": // per-contract storage entry without slots
+			if sp.Storage[u(f[1])] == nil {
+				sp.Storage[u(f[1])] = map[uint64]uint64{}
+			}
 		case "sto":
 			if sp.Storage[u(f[1])] == nil {
 				sp.Storage[u(f[1])] = map[uint64]uint64{}
@@ -923,6 +935,7 @@ func main() {
 			if strings.Count(bl, "sto:") > 100 {
 				c.Hist["state_blocks_over_100_updates_one_trie"]++
 			}
+			c.Hist["state_storage_entries_without_slots"] += strings.Count(bl, "ste:")
 		}
 		c.Count(line+fmt.Sprint(sc.NewSt, sc.Reopen, sc.Pre), true)
 		if i < 2 {
